@@ -171,9 +171,12 @@ static carquet_status_t flush_current_page(carquet_column_writer_internal_t* wri
         return status;
     }
 
-    /* Update statistics */
-    writer->total_uncompressed_size += uncompressed_size;
-    writer->total_compressed_size += compressed_size;
+    /* Update size totals. ColumnMetaData.total_uncompressed_size and
+     * total_compressed_size cover all pages "including the headers"
+     * (parquet.thrift); page_size is header plus compressed body. */
+    int64_t header_size = (int64_t)page_size - compressed_size;
+    writer->total_uncompressed_size += header_size + uncompressed_size;
+    writer->total_compressed_size += (int64_t)page_size;
     writer->num_pages++;
 
     /* Reset page writer for next page */
